@@ -6,6 +6,7 @@ import Pandora.Model.C06Engine
 import Pandora.Model.C06ErrJoin
 import Pandora.Model.C06PoolRun
 import Pandora.Model.C06Start
+import Pandora.Model.C06Shared
 
 /-!
 Line-protocol driver of C06. Input kinds (see harness/cmd/c06):
@@ -343,6 +344,30 @@ def handleProc (kv : List (String × String)) (impl : String) : String × String
                         | _ => "the signal" })
   | _, _, _, _ => ("-", s!"fail:crash:{(impl.take 160).toString}")
 
+/-! ### (round 6) the shared standard output -/
+
+open Pandora.Model.C06Shared in
+/-- the shared-output model (the code's configuration: no aggregator closes the output, each flushes at its end) on
+the harness's schedule: every aggregator handles its `g*k` reports, they end one after the other, and after each end
+every later one gets `tail` more -/
+def modelStdout (pools g k tail : Nat) : String :=
+  let first : List Ev := (List.range pools).flatMap fun j => (List.range (g * k)).map fun x => Ev.handle j x
+  let ends : List Ev := (List.range pools).flatMap fun j =>
+    [Ev.finish j] ++ ((List.range pools).filter (fun j2 => j < j2)).flatMap fun j2 =>
+      (List.range tail).map fun t => Ev.handle j2 (g * k + j * tail + t)
+  let st := run { closesShared := false, finalFlush := true } init (first ++ ends)
+  s!"reports={st.handled.length} lines={st.out.length} err=nil order=1 dup=0 bad=0 open={if st.isOpen && st.lost.isEmpty then 1 else 0}"
+
+def handleStdout (kv : List (String × String)) (impl : String) : String × String :=
+  let ikv := parseKV impl
+  if (lookup ikv "inconclusive").isSome then ("-", "skip:inconclusive") else
+  match getN? kv "pools", getN? kv "g", getN? kv "k", getN? ikv "reports", getN? ikv "lines" with
+  | some pools, some g, some k, some reports, some lines =>
+    (modelStdout pools g k ((getN? kv "tail").getD 0),
+     judgeStdout { reports := reports, lines := lines, err := getS ikv "err", order := getS ikv "order" == "1",
+                   dup := (getN? ikv "dup").getD 1, bad := (getN? ikv "bad").getD 1, isOpen := getS ikv "open" == "1" })
+  | _, _, _, _, _ => ("-", s!"fail:crash:{(impl.take 120).toString}")
+
 def handle : Handler := fun input impl =>
   let kv := parseKV input
   if impl.startsWith "PANIC" then ("-", s!"fail:panic:{(impl.take 160).toString}")
@@ -352,6 +377,7 @@ def handle : Handler := fun input impl =>
   | "str" => handleLine kv impl true
   | "queue" => handleQueue kv impl
   | "seq" => handleSeq kv impl
+  | "stdout" => handleStdout kv impl
   | "engine" => handleEngine kv impl
   | "json" => handleJson kv impl
   | "sinkfail" => handleSinkFail kv impl
